@@ -18,12 +18,12 @@ CHECKS = {
             "DESIGN.md section 4, C02"),
 
     "C03": ("property-based testing against a by-construction meaning function, with independent surface renderings (rapid)",
-            "Generated search: abstract programs (labels, EQUs, constants, defaults, ORG/END, metadata; both dialects) are rendered 2-3 ways; CompileWarrior of each rendering must equal the meaning computed without gmars.",
+            "Generated search: abstract programs (labels, EQUs, constants, defaults, ORG/END, metadata; both dialects) are rendered 2-3 ways; CompileWarrior of each rendering must equal the meaning computed without gmars. Sub-check replicated: thousands of renamed copies of a generated program form one 3000-instruction program that must assemble to its independently computed meaning.",
             "Trusts harness/rc MeaningOf (textual EQU substitution, own expression evaluator, ICWS'94 default-modifier table with NOP->B, '88 table). Results outside int32 are discarded (C07 owns that boundary).",
             "DESIGN.md section 4, C03"),
     "C05": ("property-based robustness testing in an isolated, killable worker process with goroutine-leak inspection (rapid); native fuzzing in the thorough tier",
             "Generated search over valid, mutated, soup and adversarial inputs; every case must return within a deadline, not panic or kill the process, return error xor warrior, and leave no gmars goroutine behind; hangs are observable and shrinkable because the worker is a separate process; a quarter of the cases run 2..8 simultaneous assemblies; a rare class of very large FOR expansions with proportional deadline; a scaling sub-property compares n with 5n for structured families.",
-            "Time bound decided as a 5 s deadline for inputs whose own expansion estimate is <= 2*10^4 tokens (larger inputs discarded); polynomial slowness below the deadline is not detected.",
+            "Time bound decided as a 5 s deadline and a 256 MiB heap cap for inputs whose own expansion estimate is <= 2*10^4 tokens (larger inputs discarded); proportionality decided by sub-checks scaling (sweep of 25 structured input families assembled at n and 5n lines, n = 12000..16000: more than 12x the time for 5x the input is a violation) and replicated (the same relation on K and 5K renamed copies of generated programs). Super-linear behaviour outside those families and below the deadline is not detected.",
             "DESIGN.md section 4, C05"),
     "C06": ("property-based testing of a validity predicate over accepted outputs (rapid); native fuzzing in the thorough tier",
             "Generated search: valid, mutated, soup, boundary and cross-dialect inputs; whenever CompileWarrior succeeds the output must satisfy the structural predicate and, under ICWS'88, an independently written table of legal instructions.",
@@ -34,7 +34,7 @@ CHECKS = {
             "Trusts harness/rc Eval; final values outside int32 are discarded.",
             "DESIGN.md section 4, C07"),
     "C08": ("metamorphic + model-based property testing: FOR program vs abstract unrolling vs meaning (rapid)",
-            "Generated search over program trees with sequential and nested FOR blocks, EQU counts, zero counts, counters in arithmetic and block labels used inside and outside; CompileWarrior(FOR text) == CompileWarrior(unrolled text) == meaning(unrolled).",
+            "Generated search over program trees with sequential and nested FOR blocks, EQU counts, zero counts, counters in arithmetic and block labels used inside and outside; CompileWarrior(FOR text) == CompileWarrior(unrolled text) == meaning(unrolled). Sub-check replicated: thousands of renamed copies of a generated FOR program.",
             "Programs whose unrolling is ill-defined are kept out of the generator (listed in DESIGN.md).",
             "DESIGN.md section 4, C08"),
     "C09": ("round-trip property testing: printer -> ParseLoadFile / CompileWarrior (rapid)",
